@@ -19,6 +19,8 @@ def run_bundle(bundle, root='/repo', only=None, timeout_ms=60000):
         eng.verify(q)
     if hasattr(mod, 'extra_obligations') and not only:
         eng.obls += mod.extra_obligations(repo, D, None)
+    for ob in eng.obls:
+        ob.logic = getattr(D, 'smt_logic', 'ALL')
     gen = time.time() - t0
     t1 = time.time()
     discharge(eng.obls, timeout_ms)
